@@ -208,14 +208,15 @@ fn c09_allocate_deallocate_balance() {
     forget(rt);
 }
 
-/// can_allocate_by:  Err(AllocationLimitReached) <=> limit = Some(M), f() = Some(n), size + n > M
+/// can_allocate_by:  Err(AllocationLimitReached) <=> limit = Some(M), f() = Some(n), min(size + n, usize::MAX) > M
+/// (no panic for any estimate: the natives pass saturated estimates)
 #[kani::proof]
 #[kani::stub(std::hash::RandomState::new, const_random_state)]
 fn c09_can_allocate_by() {
     let limit = any_limit();
     let size: usize = kani::any();
     let want: Option<usize> = if kani::any() { Some(kani::any()) } else { None };
-    kani::assume(want.map_or(true, |n| size.checked_add(n).is_some()));
+    // no precondition on the magnitudes: the estimate may be any usize (it saturates in the natives)
     let rt = mk(RuntimeLimits {
         size_limit: limit,
         ..Default::default()
@@ -223,7 +224,9 @@ fn c09_can_allocate_by() {
     rt.stats.borrow_mut().size = AllocatedMemory(size);
     let r = rt.can_allocate_by(|| want);
     let should_fail = match (limit, want) {
-        (Some(m), Some(n)) => size + n > m,
+        // the estimate is added with saturation: exact, except that nothing can exceed a limit of
+        // usize::MAX (the accounted total is a usize; `allocate` is the enforcing check)
+        (Some(m), Some(n)) => std::cmp::min(size as u128 + n as u128, usize::MAX as u128) > m as u128,
         _ => false,
     };
     assert!(r.is_err() == should_fail, "pre-flight check fails exactly when the limit would be exceeded");
